@@ -13,7 +13,10 @@ GROUP = dict(
            {'lambda_in': CA + '::deallocate', 'file': 'page_allocator.cpp', 'line': 127}, {'lambda_in': CA + '::deallocate', 'file': 'page_allocator.cpp', 'line': 132},
            {'lambda_in': CA + '::~CachedPageAllocator', 'file': 'page_allocator.cpp', 'line': 79}],
     reviewed_compiler_conditionals=['src/babylon/concurrent/bounded_queue.h:#if !__clang__ && BABYLON_GCC_VERSION < 50000'],
-    assumptions=[],
+    assumptions=['upstream PageAllocator (virtual) hands out a page nobody holds: modelled as the next token of a strictly increasing sequence (assumed contract of the upstream)',
+                 'ConcurrentBoundedQueue pop_n/push_n/try_pop_n contract stubs: n <= capacity slots delivered in one or two consecutive ranges, reverse callback on one-slot ranges (the queue itself: C01)',
+                 'std::copy / std::copy_n copy a range in order (trusted library contract); queue capacity < 2^20 and num < 2^32 (model bounds on symbolic sizes, no unwinding)',
+                 'VF_REBASE identity statements on loop-modified pointers (see DESIGN): p = base + (p - base) at the head of the loop body'],
     jobs=[
         dict(id='C17.cached.allocate', enforce='CachedPA_allocate', loops=True, backend='cadical'),
         dict(id='C17.cached.deallocate', enforce='CachedPA_deallocate', loops=True, backend='cadical'),
